@@ -198,7 +198,7 @@ def placed_case(rng, kind, eq, k, p, errors, failures, cf, mnmx=None, persist=No
                                    [['set', 3, lib.fhex(2.0)], ['warnset', rng.randrange(4), lib.fhex(rng.choice([float('inf'), 4.0]))]]])
     elif r < 0.12:
         ps['after'] = [['raise', 13]] if rng.random() < 0.6 else [['warnset', 3, lib.fhex(1.0)]]
-    c['scripts'] = {str(p): ps}
+    c['scripts'] = sc.with_list_assignments(rng, {str(p): ps}, 0.2, (0, 1, 2))      # some stores as whole-series list assignments (array rebound)
     c['opts'] = sc.random_omit(rng, c['opts'], 0.12)          # some calls leave keywords (errors, catch_first_error, ...) to their defaults
     if rng.random() < 0.15:
         c['vals'][rng.randrange(3)][p] = lib.fhex(rng.choice(list(BADV.values())))
@@ -297,7 +297,7 @@ def gen(rng, tier):
                              errors=rng.choice(['raise', 'skip', 'ignore']), catch_first_error=rng.random() < 0.5)
             c['opts'] = sc.with_omitted(c['opts'], omit)
             c['vals'][0][1] = lib.fhex(1.0)
-            c['scripts'] = {'1': sc.default_probe_scripts(1)[name]}
+            c['scripts'] = sc.with_list_assignments(rng, {'1': sc.default_probe_scripts(1)[name]}, 0.3)
             cases.append(c)
     # random multi-fault scripts
     for _ in range(600 if tier == 'quick' else 12000):
